@@ -9,6 +9,7 @@ def _nontrivial(t):
 CFG = {
     "module": "Swat4.Properties.C12",
     "theorems": [
+        "Swat4.C12.facts_item_id",
         "Swat4.C12.never_queued",
         "Swat4.C12.enqueue_one_batch",
         "Swat4.C12.no_leak",
